@@ -14,7 +14,7 @@ from ..absint import Config, Interp
 from ..bits import writer_layout
 from ..harness import rule
 from ..index import AnalysisError, text
-from ..models import BASE_STUBS, mask_stub, mk_websocket
+from ..models import RECV_LOOP, BASE_STUBS, mask_stub, mk_websocket
 from ..rulekit import Dim, box_hit, dim_of, isym, ivals, new_obj, path_text, stub_effect
 from ..values import C, FALSE, INF, NONE, TRUE, App, Ext, Ref, Sym, Tup, Value, template_text
 
@@ -521,7 +521,7 @@ def r8(ctx):
         # the text rendering of a frame (ABNF.__str__) and everything else under the trace flag is interpreted, with
         # peer-controlled bytes: a strict decode there can fail
         from .c17 import hostile
-        cfg = Config(stubs=stubs, loop_unroll=2, single_iteration={f"{W}.recv_data_frame"}, may_raise=hostile())
+        cfg = Config(stubs=stubs, loop_unroll=2, single_iteration=set(RECV_LOOP), may_raise=hostile())
         return Interp(idx, cfg)
 
     def send_body(I):
